@@ -1,8 +1,8 @@
 /-
 Property C19 — minimum cuts separate source from sink and have minimum size.
 
-What is proved here, for ALL graphs (no size bound), about the import-free Spec
-`DSymVerif.SpecC19` and the import-free model `DSymVerif.Cut` of src/util/cutsets.rs:
+Everything below is proved for ALL graphs (no size bound), about the import-free Spec
+`DSymVerif.SpecC19` and the import-free model `DSymVerif.Cut` of src/util/cutsets.rs.
 
   weak duality            disjoint_paths_lower_bound(_undirected/_vertex)
   closed-set lemma        closed_set_separates
@@ -11,20 +11,31 @@ What is proved here, for ALL graphs (no size bound), about the import-free Spec
                           model_vertex_cut_separates, model_undirected_vertex_cut_separates
   the Spec's Booleans mean what they say
                           separates_sound, reach_exact, inside_clause_meaning
-  certificates            certificate_edge, certificate_undirected, certificate_vertex:
-                          `validPaths… = true → separates… = true → k ≤ |cut|` — the
-                          hypotheses are literally the Booleans that Driver/C19.lean
-                          evaluates on every explored input (paths decomposed from the
-                          model's flow, cut returned by the implementation), so minimality
-                          of the implementation's cut on that input is a theorem instance.
-  partial (○)             inside_is_reachable_partial, no_duplicates_partial,
-                          split_graph_correspondence_partial
-Open (see conf/C19.json open_obligations): the flow-based halves of the three ○
-statements, and the universally quantified max-flow/min-cut equality for this
-augmenting scheme (|cut| = number of augmentations; loop fuel never runs out).
+  certificates            certificate_edge, certificate_undirected, certificate_vertex
+                          (hypotheses = the Booleans Driver/C19.lean evaluates on the
+                          implementation's own output: per-input minimality of the
+                          *implementation's* cut, independent of the model)
+  loop invariant          flow_conservation: `path_edges` is a duplicate-free set of edges of
+                          the graph without antiparallel pairs, conserved at every vertex
+                          other than source and sink, nothing flows into the source
+  fuel / totality         fuel_adequate (no entry point of the model ever returns `err`),
+                          total_on_domain (`ok` whenever the source is an endpoint of an edge)
+  max-flow = min-cut      max_flow_min_cut: |cut| = value of the final flow (= number of
+                          augmentations) and no separating edge set is smaller
+  minimality (model)      model_edge_cut_minimum, model_undirected_edge_cut_minimum,
+                          model_vertex_cut_minimum, model_undirected_vertex_cut_minimum
+  inside = reachable      inside_is_reachable(_undirected/_vertex/_undirected_vertex)
+  hygiene                 no_duplicates, split_graph_correspondence
+  capstones               min_edge_cut_correct, min_edge_cut_undirected_correct,
+                          min_vertex_cut_correct, min_vertex_cut_undirected_correct:
+                          on the whole domain of the property (DESIGN §5.7) the model returns
+                          a cut with all five clauses of the property.
+Nothing is left open on the Lean side; what remains trusted is the tie model ↔ Rust code
+(differential, see conf/C19.json).
 -/
 import DSymVerif.Proofs.Cutsets
 import DSymVerif.Proofs.CutsetsModel
+import DSymVerif.Proofs.CutsetsFlowInside
 
 namespace DSymVerif.C19
 open DSymVerif.Cut DSymVerif.SpecC19 DSymVerif.CutP
@@ -214,59 +225,225 @@ theorem certificate_vertex (G : List (Nat × Nat)) (s t : Nat) (paths : List (Li
 example : validPathsV [(0, 1), (1, 3), (0, 2), (2, 3)] 0 3 [[0, 1, 3], [0, 2, 3]] = true ∧
     separatesV [(0, 1), (1, 3), (0, 2), (2, 3)] [1, 2] 0 3 = true := by decide
 
-/-! ### partial results on the ○ statements -/
+/-! ### the loop invariant: flow conservation -/
 
-/-- full statement: `inside` of the model = vertices reachable from the source once the cut is
-    removed.  Proved: ⊇ (`inside` is closed under the remaining edges).  Missing: ⊆ — every
-    vertex the residual BFS reaches through a *reversed* flow edge is also reachable forwards;
-    needs flow conservation of `path_edges` as a loop invariant. -/
-def inside_is_reachable_statement : Prop :=
-  ∀ (input : List (Nat × Nat)) (s t : Nat) (r : EdgeCut), minEdgeCut input s t = .ok r → s ≠ t →
-    ∀ v, v ∈ r.inside ↔ ∃ p, IsWalk (removeEdges input r.cut) s v p
+/-- The final `path_edges` of the model (and, by the same invariant, every intermediate one)
+    is a flow: a duplicate-free set of edges of the graph, without antiparallel pairs,
+    conserved at every vertex other than source and sink, with nothing flowing into the
+    source. -/
+theorem flow_conservation (input : List (Nat × Nat)) (s t : Nat) (r : EdgeCut)
+    (h : minEdgeCut input s t = .ok r) (hst : s ≠ t) :
+    r.flow.Nodup ∧ (∀ e ∈ r.flow, e ∈ input) ∧ (∀ a b, (a, b) ∈ r.flow → (b, a) ∉ r.flow) ∧
+    (∀ x, x ≠ s → x ≠ t →
+      r.flow.countP (fun e => e.1 == x) = r.flow.countP (fun e => e.2 == x)) ∧
+    (∀ e ∈ r.flow, e.2 ≠ s) := by
+  obtain ⟨k, hF, _, _⟩ := minEdgeCut_final input s t r h hst
+  exact ⟨hF.sorted.nodup, fun e he => (mem_edgeSet e input).1 (hF.sub e he), hF.anti, hF.cons,
+    hF.noin⟩
 
-theorem inside_is_reachable_partial (input : List (Nat × Nat)) (s t : Nat) (r : EdgeCut)
-    (h : minEdgeCut input s t = .ok r) :
-    (∀ e ∈ input, e ∉ r.cut → e.1 ∈ r.inside → e.2 ∈ r.inside) ∧
-    (∀ v, (∃ p, IsWalk (removeEdges input r.cut) s v p) → v ∈ r.inside) :=
-  ⟨fun e he hc h1 => minEdgeCut_inside_closed input s t r h e he hc h1,
-   fun v ⟨p, hp⟩ => minEdgeCut_inside_contains_reachable input s t r h v p hp⟩
+example : (minEdgeCut [(0, 1), (1, 2), (0, 2), (2, 1)] 0 2).isOk = true ∧ (0 : Nat) ≠ 2 := by decide
 
-/-- full statement: none of the four cuts repeats an element.  Proved: both edge cuts (also
-    no unordered edge in both orientations), and every cut edge is an edge of the graph.
-    Missing: vertex cuts (two split-graph cut edges `(s+off, w)`, `(w, w+off)` or
-    `(v+off, w)`, `(v'+off, w)` would read back to the same `w`; excluding them needs the
-    flow invariants). -/
-def no_duplicates_statement : Prop :=
-  (∀ (input : List (Nat × Nat)) (s t : Nat) (r : EdgeCut), minEdgeCut input s t = .ok r → r.cut.Nodup) ∧
-  (∀ (input : List (Nat × Nat)) (s t : Nat) (r : EdgeCut), minEdgeCutUndirected input s t = .ok r →
-      (r.cut.map norm).Nodup) ∧
-  (∀ (input : List (Nat × Nat)) (s t : Nat) (r : VertexCut), minVertexCut input s t = .ok r →
-      (s, t) ∉ input → r.cut.Nodup) ∧
-  (∀ (input : List (Nat × Nat)) (s t : Nat) (r : VertexCut), minVertexCutUndirected input s t = .ok r →
-      (s, t) ∉ input → (t, s) ∉ input → r.cut.Nodup)
+/-! ### fuel adequacy and totality -/
 
-theorem no_duplicates_partial :
-    (∀ (input : List (Nat × Nat)) (s t : Nat) (r : EdgeCut), minEdgeCut input s t = .ok r →
-        r.cut.Nodup ∧ ∀ e ∈ r.cut, e ∈ input) ∧
-    (∀ (input : List (Nat × Nat)) (s t : Nat) (r : EdgeCut), minEdgeCutUndirected input s t = .ok r →
-        r.cut.Nodup ∧ (∀ e ∈ r.cut, swap e ∉ r.cut) ∧ ∀ e ∈ r.cut, e ∈ sym input) :=
-  ⟨fun input s t r h => minEdgeCut_nodup input s t r h,
-   fun input s t r h => minEdgeCutUndirected_nodup input s t r h⟩
+/-- The fuel of the model's loops (`|E|+2` augmentations, `|V|+2` BFS pops, `|back|+1` steps
+    of the path read-back) never runs out: no entry point ever returns `err`. -/
+theorem fuel_adequate (input : List (Nat × Nat)) (s t : Nat) :
+    minEdgeCut input s t ≠ .err ∧ minEdgeCutUndirected input s t ≠ .err ∧
+    minVertexCut input s t ≠ .err ∧ minVertexCutUndirected input s t ≠ .err :=
+  ⟨(minEdgeCut_total input s t).1, (minEdgeCutUndirected_total input s t).1,
+   minVertexCut_ne_err input s t, (minVertexCutUndirected_total input s t).1⟩
 
-/-- full statement: a minimum edge cut of the split graph reads back, through `v.min(w)`, as a
-    vertex cut *of the same size avoiding source and sink*.  Proved: it reads back as a
-    separating vertex set (`model_vertex_cut_separates`, restated here for a non-adjacent
-    pair in the Spec's own terms).  Missing: size preservation (= no repeats) and
-    `s, t ∉ cut`, both flow-based. -/
-def split_graph_correspondence_statement : Prop :=
-  ∀ (input : List (Nat × Nat)) (s t : Nat) (r : VertexCut), minVertexCut input s t = .ok r →
-    s ≠ t → (s, t) ∉ input →
+/-- The only panic is `neighbors[&source]` for a source that is in no edge: whenever the
+    source is an endpoint of an edge, all four entry points return. -/
+theorem total_on_domain (input : List (Nat × Nat)) (s t : Nat)
+    (hs : ∃ e ∈ input, e.1 = s ∨ e.2 = s) :
+    (∃ r, minEdgeCut input s t = .ok r) ∧ (∃ r, minEdgeCutUndirected input s t = .ok r) ∧
+    (∃ r, minVertexCut input s t = .ok r) ∧ (∃ r, minVertexCutUndirected input s t = .ok r) :=
+  ⟨(minEdgeCut_total input s t).2 hs, (minEdgeCutUndirected_total input s t).2 hs,
+   minVertexCut_total input s t hs, (minVertexCutUndirected_total input s t).2 hs⟩
+
+example : ∃ e ∈ [((0 : Nat), (1 : Nat)), (1, 2)], e.1 = 0 ∨ e.2 = 0 := ⟨(0, 1), by simp, Or.inl rfl⟩
+
+/-! ### max-flow = min-cut, minimality of the model's cuts -/
+
+/-- **Max-flow = min-cut for this augmenting scheme.**  At termination the number of cut edges
+    equals the value of the flow (the number of flow edges leaving the source = the number of
+    augmentations, each of which raises the value by one), and no edge set meeting all walks
+    from the source to the sink is smaller. -/
+theorem max_flow_min_cut (input : List (Nat × Nat)) (s t : Nat) (r : EdgeCut)
+    (h : minEdgeCut input s t = .ok r) (hst : s ≠ t) :
+    r.cut.length = r.flow.countP (fun e => e.1 == s) ∧
+    ∀ C : List (Nat × Nat), (∀ p, IsWalk input s t p → ∃ e ∈ walkEdges p, e ∈ C) →
+      r.cut.length ≤ C.length :=
+  ⟨(minEdgeCut_minimum input s t r h hst r.cut
+      (fun p hp => minEdgeCut_separates input s t r h hst p hp)).2,
+   fun C hC => (minEdgeCut_minimum input s t r h hst C hC).1⟩
+
+/-- the model's directed edge cut is a minimum cut -/
+theorem model_edge_cut_minimum (input : List (Nat × Nat)) (s t : Nat) (r : EdgeCut)
+    (h : minEdgeCut input s t = .ok r) (hst : s ≠ t) (C : List (Nat × Nat))
+    (hC : ∀ p, IsWalk input s t p → ∃ e ∈ walkEdges p, e ∈ C) : r.cut.length ≤ C.length :=
+  (minEdgeCut_minimum input s t r h hst C hC).1
+
+/-- the model's undirected edge cut is a minimum cut (unordered edges: an element of `C`
+    blocks both orientations) -/
+theorem model_undirected_edge_cut_minimum (input : List (Nat × Nat)) (s t : Nat) (r : EdgeCut)
+    (h : minEdgeCutUndirected input s t = .ok r) (hst : s ≠ t) (C : List (Nat × Nat))
+    (hC : ∀ p, IsWalk (sym input) s t p → ∃ e ∈ walkEdges p, e ∈ C ∨ swap e ∈ C) :
+    r.cut.length ≤ C.length :=
+  minEdgeCutUndirected_minimum input s t r h hst C hC
+
+/-- the model's vertex cut is a minimum vertex cut -/
+theorem model_vertex_cut_minimum (input : List (Nat × Nat)) (s t : Nat) (r : VertexCut)
+    (h : minVertexCut input s t = .ok r) (hst : s ≠ t)
+    (ht : ∃ e ∈ input, e.1 = t ∨ e.2 = t) (C : List Nat) (hsC : s ∉ C) (htC : t ∉ C)
+    (hC : ∀ p, IsWalk input s t p → ∃ x ∈ p, x ∈ C) : r.cut.length ≤ C.length :=
+  minVertexCut_minimum input s t r h hst ht C hsC htC hC
+
+theorem model_undirected_vertex_cut_minimum (input : List (Nat × Nat)) (s t : Nat)
+    (r : VertexCut) (h : minVertexCutUndirected input s t = .ok r) (hst : s ≠ t)
+    (ht : ∃ e ∈ input, e.1 = t ∨ e.2 = t) (C : List Nat) (hsC : s ∉ C) (htC : t ∉ C)
+    (hC : ∀ p, IsWalk (sym input) s t p → ∃ x ∈ p, x ∈ C) : r.cut.length ≤ C.length :=
+  minVertexCutUndirected_minimum input s t r h hst ht C hsC htC hC
+
+example : (minVertexCut [(0, 1), (1, 3), (0, 2), (2, 3)] 0 3).isOk = true ∧ (0 : Nat) ≠ 3 ∧
+    (∃ e ∈ [((0 : Nat), (1 : Nat)), (1, 3), (0, 2), (2, 3)], e.1 = 3 ∨ e.2 = 3) ∧
+    (0 : Nat) ∉ [1, 2] ∧ (3 : Nat) ∉ [1, 2] :=
+  ⟨by decide, by decide, ⟨(1, 3), by simp, Or.inr rfl⟩, by decide, by decide⟩
+
+/-! ### inside = reachable -/
+
+/-- the model's `inside` (which contains the source) is exactly the set of vertices reachable
+    from the source by a walk that avoids the cut -/
+theorem inside_is_reachable (input : List (Nat × Nat)) (s t : Nat) (r : EdgeCut)
+    (h : minEdgeCut input s t = .ok r) (hst : s ≠ t) (v : Nat) :
+    v ∈ r.inside ↔ ∃ p, IsWalk (removeEdges input r.cut) s v p :=
+  minEdgeCut_inside_iff input s t r h hst v
+
+theorem inside_is_reachable_undirected (input : List (Nat × Nat)) (s t : Nat) (r : EdgeCut)
+    (h : minEdgeCutUndirected input s t = .ok r) (hst : s ≠ t) (v : Nat) :
+    v ∈ r.inside ↔ ∃ p, IsWalk (removeEdgesU (sym input) r.cut) s v p :=
+  minEdgeCutUndirected_inside_iff input s t r h hst v
+
+theorem inside_is_reachable_vertex (input : List (Nat × Nat)) (s t : Nat) (r : VertexCut)
+    (h : minVertexCut input s t = .ok r) (hst : s ≠ t)
+    (ht : ∃ e ∈ input, e.1 = t ∨ e.2 = t) (hadj : (s, t) ∉ input) (v : Nat) :
+    (v = s ∨ v ∈ r.inside) ↔ ∃ p, IsWalk (removeVertices input r.cut) s v p :=
+  minVertexCut_inside_iff input s t r h hst ht hadj v
+
+theorem inside_is_reachable_undirected_vertex (input : List (Nat × Nat)) (s t : Nat)
+    (r : VertexCut) (h : minVertexCutUndirected input s t = .ok r) (hst : s ≠ t)
+    (ht : ∃ e ∈ input, e.1 = t ∨ e.2 = t) (h1 : (s, t) ∉ input) (h2 : (t, s) ∉ input) (v : Nat) :
+    (v = s ∨ v ∈ r.inside) ↔ ∃ p, IsWalk (removeVertices (sym input) r.cut) s v p :=
+  minVertexCutUndirected_inside_iff input s t r h hst ht h1 h2 v
+
+example : (minVertexCutUndirected [(1, 0), (1, 3), (0, 2), (3, 2)] 0 3).isOk = true ∧
+    ((0 : Nat), (3 : Nat)) ∉ [((1 : Nat), (0 : Nat)), (1, 3), (0, 2), (3, 2)] ∧
+    ((3 : Nat), (0 : Nat)) ∉ [((1 : Nat), (0 : Nat)), (1, 3), (0, 2), (3, 2)] := by decide
+
+/-! ### no repeats; the split-graph correspondence -/
+
+/-- none of the four cuts repeats an element (edge cuts: also not as `(v,w)` and `(w,v)`;
+    every cut edge is an edge of the graph) -/
+theorem no_duplicates (input : List (Nat × Nat)) (s t : Nat) :
+    (∀ r, minEdgeCut input s t = .ok r → r.cut.Nodup ∧ ∀ e ∈ r.cut, e ∈ input) ∧
+    (∀ r, minEdgeCutUndirected input s t = .ok r →
+        r.cut.Nodup ∧ (∀ e ∈ r.cut, swap e ∉ r.cut) ∧ ∀ e ∈ r.cut, e ∈ sym input) ∧
+    (∀ r, minVertexCut input s t = .ok r → s ≠ t → (∃ e ∈ input, e.1 = t ∨ e.2 = t) →
+        (s, t) ∉ input → r.cut.Nodup) ∧
+    (∀ r, minVertexCutUndirected input s t = .ok r → s ≠ t → (∃ e ∈ input, e.1 = t ∨ e.2 = t) →
+        (s, t) ∉ input → (t, s) ∉ input → r.cut.Nodup) :=
+  ⟨fun r h => minEdgeCut_nodup input s t r h,
+   fun r h => minEdgeCutUndirected_nodup input s t r h,
+   fun r h hst ht hadj => (minVertexCut_hygiene input s t r h hst ht hadj).1,
+   fun r h hst ht h1 h2 => (minVertexCutUndirected_hygiene input s t r h hst ht h1 h2).1⟩
+
+/-- **Vertex splitting is faithful.**  The minimum edge cut of the split graph reads back,
+    through `v.min(w)`, as a vertex set of the same size (no repeats) that contains neither
+    source nor sink and meets every walk from the source to the sink in an internal vertex. -/
+theorem split_graph_correspondence (input : List (Nat × Nat)) (s t : Nat) (r : VertexCut)
+    (h : minVertexCut input s t = .ok r) (hst : s ≠ t)
+    (ht : ∃ e ∈ input, e.1 = t ∨ e.2 = t) (hadj : (s, t) ∉ input) :
     r.cut.Nodup ∧ s ∉ r.cut ∧ t ∉ r.cut ∧
-    ∀ p, IsWalk input s t p → ∃ x ∈ internal p, x ∈ r.cut
+    ∀ p, IsWalk input s t p → ∃ x ∈ internal p, x ∈ r.cut := by
+  obtain ⟨h1, h2, h3⟩ := minVertexCut_hygiene input s t r h hst ht hadj
+  refine ⟨h1, h2, h3, fun p hp => ?_⟩
+  obtain ⟨x, hx, hxc⟩ := minVertexCut_separates input s t r h hst p hp
+  exact ⟨x, mem_internal hp.1 hp.2.1 (List.mem_of_mem_tail hx) (fun hh => h2 (hh ▸ hxc))
+    (fun hh => h3 (hh ▸ hxc)), hxc⟩
 
-theorem split_graph_correspondence_partial (input : List (Nat × Nat)) (s t : Nat) (r : VertexCut)
-    (h : minVertexCut input s t = .ok r) (hst : s ≠ t) :
-    ∀ p, IsWalk input s t p → ∃ x ∈ p.tail, x ∈ r.cut :=
-  fun p hp => minVertexCut_separates input s t r h hst p hp
+/-! ### capstones: the five clauses of the property, on its whole domain, for the model -/
+
+/-- `min_edge_cut`: for every digraph and every pair of distinct vertices whose source is an
+    endpoint of an edge, the model returns a cut that (1) disconnects, (2) is minimum, (3) has
+    no repeats and consists of edges of the graph, (5) with `inside` = the reachable set. -/
+theorem min_edge_cut_correct (input : List (Nat × Nat)) (s t : Nat) (hst : s ≠ t)
+    (hs : ∃ e ∈ input, e.1 = s ∨ e.2 = s) :
+    ∃ r, minEdgeCut input s t = .ok r ∧
+      (∀ p, IsWalk input s t p → ∃ e ∈ walkEdges p, e ∈ r.cut) ∧
+      (∀ C : List (Nat × Nat), (∀ p, IsWalk input s t p → ∃ e ∈ walkEdges p, e ∈ C) →
+        r.cut.length ≤ C.length) ∧
+      r.cut.Nodup ∧ (∀ e ∈ r.cut, e ∈ input) ∧
+      (∀ v, v ∈ r.inside ↔ ∃ p, IsWalk (removeEdges input r.cut) s v p) := by
+  obtain ⟨r, h⟩ := (minEdgeCut_total input s t).2 hs
+  exact ⟨r, h, minEdgeCut_separates input s t r h hst,
+    fun C hC => (minEdgeCut_minimum input s t r h hst C hC).1,
+    (minEdgeCut_nodup input s t r h).1, (minEdgeCut_nodup input s t r h).2,
+    minEdgeCut_inside_iff input s t r h hst⟩
+
+/-- `min_edge_cut_undirected` -/
+theorem min_edge_cut_undirected_correct (input : List (Nat × Nat)) (s t : Nat) (hst : s ≠ t)
+    (hs : ∃ e ∈ input, e.1 = s ∨ e.2 = s) :
+    ∃ r, minEdgeCutUndirected input s t = .ok r ∧
+      (∀ p, IsWalk (sym input) s t p → ∃ e ∈ walkEdges p, e ∈ r.cut) ∧
+      (∀ C : List (Nat × Nat),
+        (∀ p, IsWalk (sym input) s t p → ∃ e ∈ walkEdges p, e ∈ C ∨ swap e ∈ C) →
+        r.cut.length ≤ C.length) ∧
+      r.cut.Nodup ∧ (∀ e ∈ r.cut, swap e ∉ r.cut) ∧ (∀ e ∈ r.cut, e ∈ sym input) ∧
+      (∀ v, v ∈ r.inside ↔ ∃ p, IsWalk (removeEdgesU (sym input) r.cut) s v p) := by
+  obtain ⟨r, h⟩ := (minEdgeCutUndirected_total input s t).2 hs
+  obtain ⟨n1, n2, n3⟩ := minEdgeCutUndirected_nodup input s t r h
+  exact ⟨r, h, minEdgeCutUndirected_separates input s t r h hst,
+    fun C hC => minEdgeCutUndirected_minimum input s t r h hst C hC, n1, n2, n3,
+    minEdgeCutUndirected_inside_iff input s t r h hst⟩
+
+/-- `min_vertex_cut`: source and sink distinct endpoints of edges, no edge source → sink -/
+theorem min_vertex_cut_correct (input : List (Nat × Nat)) (s t : Nat) (hst : s ≠ t)
+    (hs : ∃ e ∈ input, e.1 = s ∨ e.2 = s) (ht : ∃ e ∈ input, e.1 = t ∨ e.2 = t)
+    (hadj : (s, t) ∉ input) :
+    ∃ r, minVertexCut input s t = .ok r ∧
+      (∀ p, IsWalk input s t p → ∃ x ∈ internal p, x ∈ r.cut) ∧
+      (∀ C : List Nat, s ∉ C → t ∉ C → (∀ p, IsWalk input s t p → ∃ x ∈ p, x ∈ C) →
+        r.cut.length ≤ C.length) ∧
+      r.cut.Nodup ∧ s ∉ r.cut ∧ t ∉ r.cut ∧
+      (∀ v, (v = s ∨ v ∈ r.inside) ↔ ∃ p, IsWalk (removeVertices input r.cut) s v p) := by
+  obtain ⟨r, h⟩ := minVertexCut_total input s t hs
+  obtain ⟨n1, n2, n3, n4⟩ := split_graph_correspondence input s t r h hst ht hadj
+  exact ⟨r, h, n4, fun C hsC htC hC => minVertexCut_minimum input s t r h hst ht C hsC htC hC,
+    n1, n2, n3, minVertexCut_inside_iff input s t r h hst ht hadj⟩
+
+/-- `min_vertex_cut_undirected`: no edge between source and sink in either direction -/
+theorem min_vertex_cut_undirected_correct (input : List (Nat × Nat)) (s t : Nat) (hst : s ≠ t)
+    (hs : ∃ e ∈ input, e.1 = s ∨ e.2 = s) (ht : ∃ e ∈ input, e.1 = t ∨ e.2 = t)
+    (h1 : (s, t) ∉ input) (h2 : (t, s) ∉ input) :
+    ∃ r, minVertexCutUndirected input s t = .ok r ∧
+      (∀ p, IsWalk (sym input) s t p → ∃ x ∈ internal p, x ∈ r.cut) ∧
+      (∀ C : List Nat, s ∉ C → t ∉ C → (∀ p, IsWalk (sym input) s t p → ∃ x ∈ p, x ∈ C) →
+        r.cut.length ≤ C.length) ∧
+      r.cut.Nodup ∧ s ∉ r.cut ∧ t ∉ r.cut ∧
+      (∀ v, (v = s ∨ v ∈ r.inside) ↔ ∃ p, IsWalk (removeVertices (sym input) r.cut) s v p) := by
+  obtain ⟨r, h⟩ := (minVertexCutUndirected_total input s t).2 hs
+  obtain ⟨n1, n2, n3⟩ := minVertexCutUndirected_hygiene input s t r h hst ht h1 h2
+  refine ⟨r, h, ?_, fun C hsC htC hC => minVertexCutUndirected_minimum input s t r h hst ht C hsC htC hC,
+    n1, n2, n3, minVertexCutUndirected_inside_iff input s t r h hst ht h1 h2⟩
+  intro p hp
+  obtain ⟨x, hx, hxc⟩ := minVertexCutUndirected_separates input s t r h hst p hp
+  exact ⟨x, mem_internal hp.1 hp.2.1 (List.mem_of_mem_tail hx) (fun hh => n2 (hh ▸ hxc))
+    (fun hh => n3 (hh ▸ hxc)), hxc⟩
+
+example : (0 : Nat) ≠ 3 ∧
+    (∃ e ∈ [((1 : Nat), (0 : Nat)), (1, 3), (0, 2), (3, 2)], e.1 = 0 ∨ e.2 = 0) ∧
+    (∃ e ∈ [((1 : Nat), (0 : Nat)), (1, 3), (0, 2), (3, 2)], e.1 = 3 ∨ e.2 = 3) :=
+  ⟨by decide, ⟨(1, 0), by simp, Or.inr rfl⟩, ⟨(1, 3), by simp, Or.inr rfl⟩⟩
 
 end DSymVerif.C19
